@@ -212,6 +212,6 @@ def run(pid, tier, seed):
             camp.fail(k, what, rc["case"])
     longest_match(camp)
     camp.merge(core.run_shards(shard, [dict(seed=core.seed_of(seed, s, 12), n=n) for s in range(shards)]))
-    return core.finish(pid, tier, seed, camp, RULE, t0, assumptions=[
+    return core.finish(pid, tier, seed, camp, RULE, t0, replay_fn=replay, assumptions=[
         "splices are inserted only between lexemes of the base text (a splice inside a lexeme is outside the property)",
     ])
